@@ -46,12 +46,11 @@ def obs_api(ctx, res, rec_args, label, prop, timeout=3000):
         raise vlib.Broken("no record usable for the binding self-test")
     with open(path, "a") as f:
         f.write(json.dumps(bad_self, ensure_ascii=False) + "\n")
-    out = ctx.tlc("Obs_API", "Obs.cfg", env_extra={"VERIF_OBS": path}, timeout=timeout)
-    tags = out["tags"]
+    tags, dropped = ctx.tlc_obs("Obs_API", path, [r["id"] for r in recs] + [-1], label)
     if tags.get("WFERR"):
         raise vlib.Broken(f"generator produced ill-formed tables: {tags['WFERR'][:2]}")
     recsum = {r["id"]: r for r in tags.get("REC", [])}
-    if len(recsum) != len(recs) + 1:
+    if len(recsum) + len(dropped) != len(recs) + 1:
         raise vlib.Broken(f"TLC checked {len(recsum)} of {len(recs)+1} records")
     mine = RULES[prop]
     if not any(b["id"] == -1 and b["rule"].startswith(mine) for b in tags.get("BAD", [])):
